@@ -33,6 +33,14 @@ uint64_t gsched_switches(void);
 uint64_t gsched_state_changes(void);
 // Number of preemptions (switches away from a thread that could continue)
 uint64_t gsched_preemptions(void);
+// harness bookkeeping bracket: while >0 the calling thread's accesses are
+// invisible to the scheduler (no scheduling points) and to the HB tracker
+void gsched_quiet(int delta);
+// bounded liveness: after `fair_after` more steps the schedule becomes round
+// robin; if the run is still going `fail_after` steps later the fail handler is
+// called with kind "liveness".  Cleared by gsched_liveness_clear().
+void gsched_liveness_mark(uint64_t fair_after, uint64_t fail_after);
+void gsched_liveness_clear(void);
 // force the fair tail from now on
 void gsched_fair_from_now(void);
 int gsched_in_fair_tail(void);
